@@ -32,3 +32,45 @@ Example C06_h264_example :
   | None => ([], [], [])
   end = ([65534; 65535; 0; 1; 2], [false; true; false; true; true], [4; 4; 1; 1; 3]).
 Proof. vm_compute. reflexivity. Qed.
+
+(* ---- the translated kernels (tools/go2coq, regenerated from the Go source on every run) ----
+   The integer formulas of rtph264/encoder.go - lenAggregated (every statement of its loop), the aggregation test
+   lenAggregated(batch, nalu) <= PayloadMaxSize, the single/FU-A decision len(nalu) < PayloadMaxSize, the FU-A budget
+   PayloadMaxSize - 2, the fragment count packetCount(avail, len(nalu)-1), the size 2+le of a fragment packet, the
+   last-fragment test and the marker expression, the three e.sequenceNumber++ - ARE the formulas of Model.batches /
+   write_batch / fua_protos / number: len_agg, <=?, <?, max - 2, nlen (chunks (max-2) rest), i+1 = count, seq_next. *)
+From Coq Require Import ZArith.
+From GVL Require Import Chunks.
+From GVG Require Import Kern.
+From GV_h264 Require Import BridgeLib Bridge.
+Open Scope Z_scope.
+
+Theorem C06_h264_kernels_are_the_code :
+  forall (max : N) (batch : list bytes) (n : bytes) (b0 : N) (rest : bytes) (i pc s : N) (m : bool),
+  (3 <= max)%N -> Z.of_N max < i64max -> Z.of_N (len_agg batch + 2 + nlen n) < i64max ->
+  Z.of_N (nlen (b0 :: rest)) + 2 < i64max -> (1 <= pc)%N -> Z.of_N pc < i64max ->
+  la_code batch None = Z.of_N (len_agg batch) /\
+  k_h264_agg_fits (la_code batch (Some n)) (Z.of_N max) = (len_agg batch + 2 + nlen n <=? max)%N /\
+  k_h264_one_nalu (Z.of_N (nlen batch)) = (nlen batch =? 1)%N /\
+  k_h264_single_fits (Z.of_N (nlen n)) (Z.of_N max) = (nlen n <? max)%N /\
+  k_h264_fua_avail (Z.of_N max) = Z.of_N (max - 2) /\
+  k_h264_packetCount (k_h264_fua_avail (Z.of_N max)) (k_h264_fua_le (Z.of_N (nlen (b0 :: rest))))
+    = Some (Z.of_N (nlen (chunks (max - 2) rest))) /\
+  k_h264_fua_size (Z.of_N (nlen rest)) = Z.of_N (nlen (fua_hdr0 b0 :: fua_hdr1 true false b0 :: rest)) /\
+  k_h264_fua_last (Z.of_N i) (Z.of_N pc) = (i + 1 =? pc)%N /\
+  k_h264_fua_marker (Z.of_N i) (Z.of_N pc) m = ((i + 1 =? pc)%N && m) /\
+  k_h264_seq_single (Z.of_N s) = Z.of_N (seq_next s) /\ k_h264_seq_fua (Z.of_N s) = Z.of_N (seq_next s) /\
+  k_h264_seq_stapa (Z.of_N s) = Z.of_N (seq_next s).
+Proof. exact enc_kernels_are_the_code. Qed.
+Print Assumptions C06_h264_kernels_are_the_code.
+
+(* the translated kernels compute, on the boundaries: a 1450-byte limit leaves 1448 bytes per FU-A; an aggregate of
+   exactly 1450 bytes fits, 1451 does not; a NALU of 1450 bytes is fragmented, 1449 is sent alone; 65535++ = 0;
+   lenAggregated([3 bytes], 1 byte) = 1 + 2+3 + 2+1 *)
+Example C06_h264_example_kernels :
+  k_h264_fua_avail 1450 = 1448 /\ k_h264_agg_fits 1450 1450 = true /\ k_h264_agg_fits 1451 1450 = false /\
+  k_h264_single_fits 1450 1450 = false /\ k_h264_single_fits 1449 1450 = true /\ k_h264_seq_fua 65535 = 0 /\
+  k_h264_fua_marker 2 3 true = true /\ k_h264_fua_marker 1 3 true = false /\
+  la_code [[1; 2; 3]%N] (Some [4%N]) = 9 /\
+  k_h264_packetCount (k_h264_fua_avail 1450) (k_h264_fua_le 2898) = Some 3.
+Proof. vm_compute. repeat split. Qed.
